@@ -138,6 +138,51 @@ theorem answer_wrong_tag (S : Schema) (f : String) (d e c : Decl) (hf : S.func? 
     decodeAnswer S fuel f (le 4 tag ++ rest) = .err "invalid tag" := by
   simp [decodeAnswer, hf, he, hc, readLE4 tag rest ht, h1, h2]
 
+/-- `liteServer.error#bba9e148 code:int message:string = liteServer.Error` -/
+def errorDecl : Decl :=
+  { ctor := "liteServer.error", id := 0xbba9e148, result := "liteServer.Error",
+    fields := [{ name := "code", cond := none, ty := .int }, { name := "message", cond := none, ty := .string }] }
+
+/-- regenerated fact: lite_api.tl declares `liteServer.error` as above -/
+theorem liteapi_error_decl : liteApi.ctor? errorCtor = some errorDecl := by decide +kernel
+
+/-- regenerated fact (the function table of the current lite_api.tl): no constructor of any function's result type
+carries the id of `liteServer.error`, so the error test of the generated methods never shadows a result -/
+theorem liteapi_no_error_id_clash :
+    liteApi.funcs.all (fun d => (liteApi.ctorsOf d.result).all (fun c => c.id != errorDecl.id)) = true := by
+  decide +kernel
+
+/-- **answer_decodes for every function of lite_api.tl** (instantiated over the regenerated function table): for each
+of the declared functions, (1) the encoding of ANY value of its result type, followed by anything, is returned by the
+generated method as that value; (2) the encoding of any `liteServer.error` is returned as that error. -/
+theorem liteapi_answer_decodes (f : String) (d : Decl) (hf : liteApi.func? f = some d) (fuel : Nat) (rest : Bytes) :
+    (∀ c fs bs, encode liteApi (.boxed d.result) (.sum c fs) = some bs → depthList fs ≤ fuel →
+        decodeAnswer liteApi fuel f (bs ++ rest) = .ok (.result (.sum c fs))) ∧
+    (∀ evs eb, encodeFields liteApi errorDecl.fields [] evs = some eb → depthList evs ≤ fuel →
+        decodeAnswer liteApi fuel f (le 4 errorDecl.id ++ eb ++ rest) = .ok (.serverError evs)) := by
+  have h := answer_decodes liteApi wf_liteapi f d errorDecl hf liteapi_error_decl fuel rest
+  refine ⟨fun c fs bs henc hfuel => h.1 c fs bs henc hfuel ?_, fun evs eb henc hfuel => h.2 evs eb henc hfuel (by decide)⟩
+  intro cd hcd
+  have hmem : d ∈ liteApi.funcs := List.mem_of_find?_eq_some hf
+  have hall := liteapi_no_error_id_clash
+  simp only [List.all_eq_true, bne_iff_ne, ne_eq] at hall
+  apply hall d hmem cd
+  have h1 := List.mem_of_find?_eq_some hcd
+  have h2 := List.find?_some hcd
+  simp only [Bool.and_eq_true, beq_iff_eq] at h2
+  simp [Schema.ctorsOf, h1, h2.1]
+
+/-- every function of lite_api.tl has a client-side answer path: its result type is declared (so (1) above is not
+vacuous), and the number of functions covered -/
+theorem liteapi_functions_covered :
+    liteApi.funcs.length = liteApiFuncsC.length ∧
+    liteApi.funcs.all (fun d => !(liteApi.ctorsOf d.result).isEmpty) = true := by
+  refine ⟨by simp [liteApi, liteApiFuncs], ?_⟩
+  have h := wf_liteapi
+  unfold wfSchemaB at h
+  simp only [Bool.and_eq_true] at h
+  exact h.2
+
 /-! ### The regenerated schema value and its constructor ids
 
 Translator X3 emits the declarations in compact form (`DeclC`: names as character codes) so that the kernel can render
